@@ -154,6 +154,12 @@ func genC19(e *emitter, tier string, seed uint64) {
 		lock := append(append([]byte{0xa9, 0x14}, hash160(redeem)...), 0x87)
 		e.run("IX.dbg", fmt.Sprint(fBip16), hexE(append(minimalPush(r.bytes(2)), pushOf(redeem)...)), hexE(lock))
 	}
+	// empty scripts (they exist in the wild): the snapshot's program counter has nothing to point at
+	for _, pair := range [][2]string{{"51", "e"}, {"e", "51"}, {"5151", "e"}, {"00", "e"}, {"516a", "e"}, {"e", "6a"}, {"51", "6a"}} {
+		for _, fl := range []int{0, fAfterGenesis, fBip16} {
+			e.run("IX.dbg", fmt.Sprint(fl), pair[0], pair[1])
+		}
+	}
 	for _, prog := range []string{"7601089876", "760101997687", "517f7c8b7c", "03010080768151", "0201027601087f7c8b"} {
 		for _, era := range eras {
 			e.run("IX.dbg", fmt.Sprint(era), "e", prog)
